@@ -4,6 +4,7 @@
 package main
 
 import (
+	"github.com/nginx/kubernetes-ingress/internal/configs"
 	"github.com/nginx/kubernetes-ingress/internal/k8s"
 	"github.com/nginx/kubernetes-ingress/internal/verifio"
 )
@@ -20,6 +21,9 @@ func main() {
 		"injlist":  func(f []string) string { return k8s.VerifInjList(verifio.KV(f)) },
 		"injbase":  func(f []string) string { return k8s.VerifInjBase(verifio.KV(f)) },
 		"injfiles": func(f []string) string { return k8s.VerifInjFiles(verifio.KV(f)) },
+		"nm":       func(f []string) string { return configs.VerifName(verifio.KV(f)) },
+		"injwf":    func(f []string) string { return k8s.VerifInjWf(verifio.KV(f)) },
+		"wf":       func(f []string) string { return k8s.VerifWf(verifio.KV(f)) },
 		"inj":      func(f []string) string { return k8s.VerifInj(verifio.KV(f)) },
 		"re":       func(f []string) string { return verifio.VerifRe(verifio.KV(f)) },
 		"lex":      func(f []string) string { return verifio.VerifLex(verifio.KV(f)) },
